@@ -85,6 +85,20 @@ func vSchedHook(point, key string) {
 	}
 }
 
+// scripted schedule prefixes (actor names; the segment letter is implied by the actor's progress)
+var vSchedScripts = [][]string{
+	// a read paused between lookup and open while the entry is overwritten and the old file unlinked
+	{"p0", "p0", "g0", "p1", "p1", "u", "g0"},
+	// two readers of one corrupted entry; one removes it, a fresh upload arrives, the other removes late
+	{"p0", "p0", "x", "g0", "g1", "g0", "g1", "g0", "p1", "p1", "g1"},
+	// a reader fails on a corrupted file, the entry is replaced in place, the reader removes late
+	{"p0", "p0", "g0", "x", "p1", "p1", "g0", "g0"},
+	// two readers of one corrupted entry both reach the removal
+	{"p0", "p0", "x", "g0", "g1", "g0", "g1", "g0", "g1"},
+	// lookup, eviction backlog drained, then open
+	{"p0", "p0", "g0", "g1", "p1", "p1", "u", "u", "g1", "g0"},
+}
+
 func TestVerifSchedules(t *testing.T) {
 	rec := vNewRecorder(t, "sched")
 	defer rec.Close(t)
@@ -104,6 +118,13 @@ func TestVerifSchedules(t *testing.T) {
 		if !casMode {
 			max = []int64{1 << 30, 8192, 12288, 4096}[rng.Intn(4)]
 		}
+		// every fifth case follows a scripted prefix through one of the narrow windows the property
+		// names (read during overwrite; two readers of a corrupt entry; failed reader vs. fresh upload)
+		var script []string
+		if ci%5 == 0 {
+			script = vSchedScripts[(ci/5)%len(vSchedScripts)]
+			casMode, max = true, 1<<30
+		}
 		c := vNewDisk(t, dir, max)
 		sc := &vSchedCase{byGo: map[int64]*vActor{}, keys: map[string]bool{}, free: make(chan struct{})}
 		sc.remover = &vActor{name: "u", resume: make(chan struct{}), events: make(chan string, 64)}
@@ -118,6 +139,9 @@ func TestVerifSchedules(t *testing.T) {
 		var keyNames []string
 		mkKey := func(tag string) string { return vHash([]byte(fmt.Sprintf("sched-%d-%s", ci, tag))) }
 		np := 1 + rng.Intn(3)
+		if script != nil {
+			np = 2
+		}
 		if casMode {
 			blob := append([]byte{1}, []byte(fmt.Sprintf("sched-cas-%d", ci))...)
 			blob = append(blob, bytes.Repeat([]byte{7}, 2000)...)
@@ -140,6 +164,9 @@ func TestVerifSchedules(t *testing.T) {
 			getKind = cache.CAS
 		}
 		ng := 1 + rng.Intn(3)
+		if script != nil {
+			ng = 2
+		}
 		for j := 0; j < ng; j++ {
 			h := puts[0].hash
 			if !casMode && rng.Pct(25) {
@@ -276,6 +303,33 @@ func TestVerifSchedules(t *testing.T) {
 				break
 			}
 			pick := rng.Intn(len(en) + b2i(rr) + b2i(casMode && len(committed) > 0 && rng.Pct(15)))
+			if len(script) > 0 {
+				tok := script[0]
+				script = script[1:]
+				found := false
+				switch {
+				case tok == "u":
+					if rr || removerReady(50*time.Millisecond) {
+						rr, pick, found = true, len(en), true
+					}
+				case tok == "x":
+					if len(committed) > 0 {
+						pick, found = len(en)+b2i(rr), true
+						if !rr {
+							pick = len(en) + 1 // falls into the default branch of the switch below
+						}
+					}
+				default:
+					for i, a := range en {
+						if a.name == tok {
+							pick, found = i, true
+						}
+					}
+				}
+				if !found {
+					continue // not enabled (any more): skip this script step
+				}
+			}
 			if steps < 2 && ci%2 == 0 && len(en) > 0 && en[0].name == "p0" {
 				pick = 0 // in half of the cases the first upload completes first, so that reads find something
 			}
